@@ -114,16 +114,31 @@ impl Scheduler {
     }
 
     fn tick(thread: &mut Thread, execution: &mut Execution) -> VecDeque<QueuedSpawn> {
-        let mut queued_spawn = VecDeque::new();
+        // If the thread panics, the closures of the threads it has spawned but
+        // that have not started yet must not be dropped: they may own loom
+        // objects (e.g. `Arc`) whose destructors need the execution state,
+        // which is gone by then. Leak them, like the stacks of the suspended
+        // threads.
+        struct LeakOnPanic(VecDeque<QueuedSpawn>);
+
+        impl Drop for LeakOnPanic {
+            fn drop(&mut self) {
+                if std::thread::panicking() {
+                    std::mem::forget(std::mem::take(&mut self.0));
+                }
+            }
+        }
+
+        let mut queued_spawn = LeakOnPanic(VecDeque::new());
         let state = RefCell::new(State {
             execution,
-            queued_spawn: &mut queued_spawn,
+            queued_spawn: &mut queued_spawn.0,
         });
 
         STATE.set(unsafe { transmute_lt(&state) }, || {
             thread.resume();
         });
-        queued_spawn
+        std::mem::take(&mut queued_spawn.0)
     }
 
     fn with_state<F, R>(f: F) -> R
